@@ -118,8 +118,8 @@ type MapsOdd struct {
 }
 
 // Bag holds untyped containers. It is part of the type/name maps (so that list type names map to
-// []interface{} and map[string]interface{}), and is used by hand-built peer streams; the value
-// generator does not draw it.
+// []interface{} and map[string]interface{}), is used by hand-built peer streams, and is drawn by the
+// value generator when the domain has Untyped set (dynamic element values: see Gen.dyn).
 type Bag struct {
 	Items []interface{}
 	Other []int32
@@ -209,7 +209,7 @@ var kTypes = []reflect.Type{
 
 var bigTypes = []reflect.Type{
 	reflect.TypeOf(Scalars{}), reflect.TypeOf(Node{}), reflect.TypeOf(Emb{}), reflect.TypeOf(Named{}),
-	reflect.TypeOf(Lists{}), reflect.TypeOf(Maps{}), reflect.TypeOf(Wide{}), reflect.TypeOf(Tagged{}), reflect.TypeOf(MapsOdd{}),
+	reflect.TypeOf(Lists{}), reflect.TypeOf(Maps{}), reflect.TypeOf(Wide{}), reflect.TypeOf(Tagged{}), reflect.TypeOf(MapsOdd{}), reflect.TypeOf(Bag{}),
 }
 
 // ---- type map / name map ---------------------------------------------------------------------
@@ -372,12 +372,13 @@ type Domain struct {
 	AllDoubles       bool // any float64 bit pattern (NaN, inf, subnormal)
 	SharedSlices     bool // the same slice/map object in two places
 	OddMaps          bool // maps whose key / element kinds differ from the wire kinds (type MapsOdd)
+	Untyped          bool // untyped containers ([]interface{}, map[string]interface{}: type Bag) with dynamic elements
 	MaxListLen       int
 	MaxMapLen        int
 }
 
 func CoreDomain() Domain {
-	d := Domain{EmptyStringElems: true, NilPtrElems: true, ZeroTimeElems: true, FarDates: true, BigStrings: true, BigBinaries: true, AllDoubles: true, MaxListLen: 40, MaxMapLen: 6}
+	d := Domain{Untyped: true, EmptyStringElems: true, NilPtrElems: true, ZeroTimeElems: true, FarDates: true, BigStrings: true, BigBinaries: true, AllDoubles: true, MaxListLen: 40, MaxMapLen: 6}
 	// development aid: VF_DOMAIN=EmptyStringElems,FarDates,... switches excluded features on, to find out
 	// whether they (still) fail; registered checks never set it
 	for _, f := range strings.Split(os.Getenv("VF_DOMAIN"), ",") {
@@ -728,8 +729,62 @@ func (g *Gen) fillValue(f reflect.Value, ft reflect.Type, depth int, elem bool) 
 			m.SetMapIndex(k, v)
 		}
 		f.Set(m)
+	case reflect.Interface:
+		g.dyn(f, depth)
 	default:
 		panic("zoo: unsupported kind " + ft.Kind().String())
+	}
+}
+
+// dyn sets the interface-typed slot f (an element of an untyped list / a value of an untyped map) to a
+// value of a drawn dynamic type. Only dynamic types that travel as themselves are drawn: the canonical
+// wire scalars, byte slices, times, struct pointers (possibly the same pointer twice: a back-reference
+// inside an untyped container), and nested untyped lists.
+func (g *Gen) dyn(f reflect.Value, depth int) {
+	g.note("untyped.elem")
+	w := []int{14, 8, 8, 12, 6, 6, 6, 6, 12, 10, 12}
+	if depth > 3 {
+		w[10] = 0
+	}
+	switch g.ch.Pick(w, "dyn.kind") {
+	case 0:
+		f.Set(reflect.ValueOf(int32(g.int64In(-1<<31, 1<<31-1, intEdges32))))
+	case 1:
+		f.Set(reflect.ValueOf(g.int64In(-1<<63, 1<<63-1, intEdges64)))
+	case 2:
+		f.Set(reflect.ValueOf(g.float()))
+	case 3:
+		f.Set(reflect.ValueOf(g.str(g.dom.EmptyStringElems)))
+	case 4:
+		f.Set(reflect.ValueOf(g.ch.Intn(2, "bool") == 1))
+	case 5:
+		// nil element
+	case 6:
+		b := g.bin()
+		if b == nil {
+			b = []byte{7}
+		}
+		f.Set(reflect.ValueOf(b))
+	case 7:
+		f.Set(reflect.ValueOf(g.time()))
+	case 8:
+		p := reflect.New(reflect.TypeOf((*K00)(nil))).Elem()
+		g.fillValue(p, p.Type(), depth+1, true)
+		if !p.IsNil() {
+			f.Set(p)
+		}
+	case 9:
+		if n := g.nodeRef(depth+1, true); n != nil {
+			f.Set(reflect.ValueOf(n))
+		}
+	case 10:
+		n := g.ch.Range(0, 4, "dyn.list.len")
+		l := make([]interface{}, n)
+		for i := range l {
+			g.dyn(reflect.ValueOf(l).Index(i), depth+1)
+		}
+		g.note("untyped.nestedlist")
+		f.Set(reflect.ValueOf(l))
 	}
 }
 
@@ -787,6 +842,9 @@ func (g *Gen) Value() interface{} {
 		t := bigTypes[g.ch.Intn(len(bigTypes), "top.big")]
 		if t == reflect.TypeOf(MapsOdd{}) && !g.dom.OddMaps {
 			t = reflect.TypeOf(Maps{})
+		}
+		if t == reflect.TypeOf(Bag{}) && !g.dom.Untyped {
+			t = reflect.TypeOf(Lists{})
 		}
 		if t == reflect.TypeOf(Node{}) {
 			return g.newNode(0)
